@@ -249,7 +249,9 @@ def hyp_cases(draw, tier):
     flavour = draw(st.sampled_from(FLAVS))
     explicit = flavour == "str"
     opts = gen.node_opts(explicit_ids=explicit, kinds=typed, meta=True)
-    spec = draw(gen.forest_specs(max_nodes=12, max_depth=4, max_width=4, min_nodes=1, alphabet=gen_ops.LABELS, opts=opts))
+    # one case in six copies a BIG source (a long list of top-level nodes / children, many clones, > 256 nodes)
+    bigcase = draw(st.sampled_from([0, 0, 0, 1]))
+    spec = draw(gen.forest_specs(max_nodes=12, max_depth=4, max_width=4, min_nodes=1, alphabet=gen_ops.LABELS, opts=opts, big=1 if bigcase else False))
     spec_t = draw(gen.forest_specs(max_nodes=8, max_depth=3, max_width=3, min_nodes=draw(st.sampled_from([0, 1, 3])), alphabet=gen_ops.LABELS + ["t1", "t2"], opts=gen.node_opts(explicit_ids=explicit, kinds=typed, fresh=flavour in ("tuple", "dc"))))
     if flavour in ("tuple", "dc"):
         # every node of the target holds its own, value-equal copy of the data object the source tree uses
@@ -288,7 +290,17 @@ def hyp_cases(draw, tier):
         st.tuples(st.just("add_tree"), gen_ops.PREF, B, tri).map(list),
         st.tuples(st.just("shortcut_tree"), st.sampled_from(["append_child", "prepend_child", "prepend_sibling", "append_sibling"]), gen_ops.REF, tri).map(list),
     ))
-    if eq_later is not None and draw(st.booleans()):
+    if bigcase:
+        copy = draw(st.one_of(
+            st.tuples(st.just("add_tree"), gen_ops.PREF, B, tri).map(list),
+            st.tuples(st.just("add_tree"), gen_ops.PREF, st.sampled_from([True, ["i", 0], ["i", 1], ["c", 0]]), tri).map(list),
+            st.tuples(st.just("add_tree"), st.just(-1), st.sampled_from([True, ["i", 0], ["i", 1], ["i", 2]]), tri).map(list),
+            st.tuples(st.just("shortcut_tree"), st.sampled_from(["append_child", "prepend_child", "prepend_sibling", "append_sibling"]), gen_ops.REF, tri).map(list),
+            st.tuples(st.just("tree2_copy_to"), gen_ops.PREF, tri).map(list),
+            st.just(["tree.copy"]),
+            st.tuples(st.just("copy_from2"), st.sampled_from([0, 1, 2]), gen_ops.PREF, st.sampled_from([True, False]), B, deep2).map(list),
+        ))
+    elif eq_later is not None and draw(st.booleans()):
         # directed: place the copy before the LATER one of two equal-comparing top-level siblings
         which = draw(st.sampled_from(["add_node", "copy_from2", "add_tree"]))
         if which == "add_node":
